@@ -25,7 +25,8 @@ def generate(rng, tier, idx):
         ops.append({"op": "dump", "path": path})
         if rng.random() < 0.2:
             ops.append({"op": "ci_rewrite_type_case", "path": path, "how": pick(rng, ["upper", "title"])})
-        ops.append({"op": "restart", "path": path, "via": pick(rng, ["path", "handle", "loads"]), "offset": rng.randint(0, 2000)})
+        if rng.random() < 0.8:      # else: the live object goes on being used after it was written
+            ops.append({"op": "restart", "path": path, "via": pick(rng, ["path", "handle", "loads"]), "offset": rng.randint(0, 2000)})
         if rng.random() < 0.5:
             ops.append({"op": "restart", "path": path, "via": pick(rng, ["path", "handle", "loads"]), "offset": rng.randint(0, 2000)})
         for _ in range(rng.randint(0, 3)):
